@@ -214,6 +214,15 @@ impl<'a, 't> Serializer<'a, 't> {
         Ok(())
     }
 
+    // Tuples are records with the fields `_0`, `_1`, ... (the same value that the `Pushable`
+    // implementations of tuples create)
+    fn alloc_tuple(&mut self, values: VmIndex) -> Result<()> {
+        let fields = (0..values)
+            .map(|i| self.thread.global_env().intern(&format!("_{}", i)))
+            .collect::<Result<Vec<_>>>()?;
+        self.alloc_record(&fields, values)
+    }
+
     fn alloc_record(&mut self, fields: &[InternedStr], values: VmIndex) -> Result<()> {
         let mut context = self.context.context();
         let value = context.gc.alloc(RecordDef {
@@ -482,7 +491,7 @@ impl<'s, 'a, 'vm> ser::SerializeTuple for RecordSerializer<'s, 'a, 'vm> {
     }
 
     fn end(self) -> Result<Self::Ok> {
-        self.serializer.alloc(self.variant_index, self.values)
+        self.serializer.alloc_tuple(self.values)
     }
 }
 
@@ -500,7 +509,7 @@ impl<'s, 'a, 'vm> ser::SerializeTupleStruct for RecordSerializer<'s, 'a, 'vm> {
     }
 
     fn end(self) -> Result<Self::Ok> {
-        self.serializer.alloc(self.variant_index, self.values)
+        self.serializer.alloc_tuple(self.values)
     }
 }
 
